@@ -74,7 +74,7 @@ def _check_value(acc, crc7, msg, container="bytes", mode="value"):
     _PREV.append([list(msg), container])
     del _PREV[:-2]
     try:
-        got = crc7(_mk(container, msg))
+        got = crc7(data=_mk(container, msg)) if len(msg) % 5 == 3 else crc7(_mk(container, msg))      # (the parameter is called data)
     except Exception as ex:  # noqa
         acc.evaluations += 1
         acc.violation("C20/raised", f"crc7() raised {ex!r} for a {len(msg)}-byte {container}",
